@@ -372,7 +372,7 @@ func newWorld(kind, B string) *bpWorld {
 	} else {
 		populate(w.base, "")
 	}
-	w.roots = []string{"/secret", "/a", "/b", "/home", "/root", "/tmp", B + "c", "/evil", "/nl", "/nr", "/x", "/.."}
+	w.roots = []string{"/secret", "/a", "/b", "/home", "/root", "/tmp", B + "c", "/evil", "/nl", "/nr", "/x"}
 	w.rec = &recFS{VFS: w.base, log: &w.log}
 	w.bp = basepathfs.New(w.rec, B)
 	w.log = w.log[:0]
@@ -441,11 +441,12 @@ func (w *bpWorld) outside() string {
 	if w.B == "/" {
 		return ""
 	}
-	if w.kind == "memfs" {
+	if w.listsRoot() {
 		snapTree(w.base, "/", w.B, "", &sb)
 		return sb.String()
 	}
-	// OrefaFS cannot list its root: snapshot the known top-level names (and the names an escape would create)
+	// an OrefaFS that cannot list its root (root stored under the key ""): snapshot the known top-level
+	// names (and the names an escape would create)
 	for _, r := range w.roots {
 		if r == w.B {
 			continue
@@ -453,6 +454,18 @@ func (w *bpWorld) outside() string {
 		snapTree(w.base, r, w.B, "", &sb)
 	}
 	return sb.String()
+}
+
+// listsRoot: the base can stat and list "/" (MemFS; OrefaFS once its root key is repaired).
+func (w *bpWorld) listsRoot() bool {
+	if w.kind == "memfs" {
+		return true
+	}
+	if _, err := w.base.Lstat("/"); err != nil {
+		return false
+	}
+	_, err := w.base.ReadDir("/")
+	return err == nil
 }
 
 // inside: B's subtree in the base, with paths made relative to B.
